@@ -180,11 +180,13 @@ func propC07(c *Ctx) {
 	for _, name := range []string{"(*Client).receipts", "(*Client).logs", "(*Client).traces"} {
 		fn := w.Fn("jrpc2", name)
 		n := 0
-		allInstrs(fn, func(in ssa.Instruction) {
+		bmReg := NewRegion(fn) // the look-up may live in a helper of the routine
+		bmReg.AllInstrs(func(in ssa.Instruction) {
 			lk, ok := in.(*ssa.Lookup)
 			if !ok || !lk.CommaOk {
 				return
 			}
+			fn := lk.Parent()
 			mt, isMap := lk.X.Type().Underlying().(*types.Map)
 			if !isMap {
 				return
@@ -222,8 +224,16 @@ func propC07(c *Ctx) {
 						}
 					}
 				}
+				// in a helper: its error must be handed on by every caller up to the routine
+				if ch := bmReg.chain(lk); len(ch) > 1 {
+					for _, at := range ch[:len(ch)-1] {
+						if call, isCall := at.(*ssa.Call); !isCall || !callErrorArmReturns(call) {
+							good = false
+						}
+					}
+				}
 			}
-			c.Check("R7.5", fmt.Sprintf("%s/block-map-lookup#%d", fnName(fn), n), lk.Pos(), good, "a block number the map does not contain is an error; the block is used only when found")
+			c.Check("R7.5", fmt.Sprintf("%s/block-map-lookup#%d", fnName(bmReg.Root), n), lk.Pos(), good, "a block number the map does not contain is an error; the block is used only when found")
 		})
 		if n == 0 {
 			c.Violation("R7.5", fnName(fn)+"/block-map-lookup", fn.Pos(), "no `b, ok := bm[n]` look-up found")
